@@ -87,7 +87,7 @@ def eval_spec(arg):
                 exp = p.at(u.replace(tzinfo=None))
                 if ga != gb:
                     fail('differs-from-tzstr-at-instant', utc=u.replace(tzinfo=None), got=ga, expected=gb)
-                if (a.utcoffset().total_seconds(), a.tzname()) != exp[:2]:
+                if a.utcoffset() is None or (a.utcoffset().total_seconds(), a.tzname()) != exp[:2]:
                     fail('differs-from-posix-reference', utc=u.replace(tzinfo=None), got=ga[2:4], expected=exp)
                 if a.astimezone(UTC) != u:
                     fail('round-trip-lost', utc=u.replace(tzinfo=None), wall=ga[0], fold=ga[1])
@@ -215,7 +215,12 @@ def malformed_menu():
          ('dtstart-with-tzid', '\r\n'.join(good).replace('DTSTART:', 'DTSTART;TZID=Foo:', 1))]
     # not in the menu: an unknown *property* (FOO:BAR) or an extra parameter on TZID -- RFC 5545 allows iana/x-
     # properties and parameters there, the statement lists neither as malformed, so either answer is acceptable
-    return [('malformed', n, t) for n, t in m + later]
+    # several zones in one text, a later one without TZID
+    p2 = pm.make_spec({'offsets': (36000, 3600), 'south': True})
+    second = [ln for ln in pm.vtimezone(p2, tzid='Zone/Two').split('\r\n') if not ln.startswith('TZID')]
+    multi = [('second-zone-without-tzid', pm.vtimezone(pm.make_spec({}), tzid='Zone/One') + '\r\n'.join(second)),
+             ('first-zone-without-tzid', '\r\n'.join(second) + pm.vtimezone(pm.make_spec({}), tzid='Zone/One'))]
+    return [('malformed', n, t) for n, t in m + later + multi]
 
 
 def signature(case, detail):
